@@ -23,10 +23,32 @@ def hs(group, mod, items=(), **common):
 
 PROPS = {}
 
+def pre_c14():
+    """The SHA3 anchors compiled into /verif/hk/setsum/mod.rs must equal hashlib's SHA3-256
+    reduced by the published definition (independent tool agreement)."""
+    import hashlib, re
+    P = [4294967291, 4294967279, 4294967231, 4294967197, 4294967189, 4294967161, 4294967143, 4294967111]
+    def st(b):
+        h = hashlib.sha3_256(b).digest()
+        return [int.from_bytes(h[4 * i:4 * i + 4], "little") % P[i] for i in range(8)]
+    src = open("/verif/hk/setsum/mod.rs").read()
+    for name, item in (("ANCHOR_EMPTY", b""), ("ANCHOR_ABC", b"abc")):
+        m = re.search(name + r": \[u32; 8\] = \[([0-9, ]+)\]", src)
+        got = [int(x) for x in m.group(1).split(",")]
+        if got != st(item):
+            return f"{name} in the harness differs from hashlib.sha3_256: {got} vs {st(item)}"
+    return None
+
 # ---------------------------------------------------------------- C14
 ALL = "all values of the tape (no sampling)"
+GROUPS["setsum"] = Group("setsum", "incrate", package="setsum", features=None)
 PROPS["C14"] = dict(
-    harnesses=hs("hx_setsum", "", unwind=70, items=[
+    harnesses=hs("setsum", "verif_harness::", unwind=40, items=[
+        ("hash_to_state_def", "quick", 200, "private hash_to_state: column i = LE32(hash[4i..]) mod P[i], canonical", "all 32-byte hashes"),
+        ("multiset_laws", "quick", 400, "with the item hash an uninterpreted function (equal items -> equal canonical states): insertion order independence, union = sum, subtraction, remove undoes insert, empty", "3 items (repeats allowed), all canonical hash states", dict(stubs=["setsum::item_vectored_to_state -> table of 3 arbitrary canonical states (SHA3 uninterpreted)"])),
+        ("sha3_anchor_empty", "quick", 900, "ANCHORED DIFFERENTIAL (concrete input): the real sha3 code on the empty item equals hashlib's SHA3-256 columns", "1 concrete item"),
+        ("sha3_anchor_abc", "quick", 900, "ANCHORED DIFFERENTIAL (concrete input): b'abc' whole and split at every position equals hashlib's SHA3-256 columns; digest columns", "1 concrete item, 4 splits"),
+    ]) + hs("hx_setsum", "", unwind=70, items=[
         ("add_state_def", "quick", 120, "add_state equals (a+b) mod p, canonical, commutative, identity", "all pairs of canonical states (2^512)"),
         ("add_state_assoc", "quick", 120, "add_state associative", "all triples of canonical states"),
         ("invert_canonical", "quick", 120, "a + invert(a) == 0; (b+a)+invert(a) == b", "all canonical a, b"),
@@ -41,6 +63,7 @@ PROPS["C14"] = dict(
     level_text="Bounded model checking of the compiled setsum code: each law is one SAT query over ALL 32/64/96-byte inputs (2^256..2^768 states), so column values 0, 1, p-1, p and p..2^32-1 are all covered at once; loops are fixed-size (8 columns, 32/64 bytes) and fully unrolled with unwinding assertions on, so inside the algebra the claim is complete for the functions named; SHA3 is outside the solver.",
     level_note="Trusts Kani's MIR->goto translation, CBMC and CaDiCaL; the oracle is a u64 '%' reading of the published definition with the eight primes restated in the harness; SHA3-256 is not encoded symbolically (hash_to_state is checked for all 32-byte hashes; the hash itself is anchored on concrete items).",
     design_ref="DESIGN.md 2/C14",
+    pre="pre_c14",
     outside="collision resistance; SHA3-256 itself on symbolic input (anchored on concrete items only); non-ASCII strings passed to from_hexdigest",
     trusted=["Kani MIR->goto translation and CBMC's bit-precise semantics", "harness-side model: (a+b) mod p in u64 with the eight published primes"],
 )
@@ -64,14 +87,9 @@ _sk += [
     ("iter_after_drop_h21_seek_prev", "thorough", 420, "same for seek(q),prev", "2 keys, heights 2,1"),
     ("iter_after_drop_h12_last_prev", "thorough", 420, "same for seek_to_last,prev", "2 keys, heights 1,2"),
     ("iter_clone_after_drop", "quick", 420, "a cloned iterator survives the drop of the list and of the other clone", "2 keys, heights 1,2"),
-    ("nested2_h11", "quick", 600, "insert with one nested interference (second insert or reader) at the yield point before the publishing CAS; reaches the CAS-failure re-search", "2 keys, heights 1,1, budget 1"),
-    ("nested2_h21", "thorough", 900, "same, outer node of height 2", "2 keys, heights 2,1, budget 1"),
-    ("nested2_h12", "thorough", 900, "same, nested node of height 2", "2 keys, heights 1,2, budget 1"),
-    ("nested2_h22", "thorough", 1200, "same, both height 2, budget 2", "2 keys, heights 2,2, budget 2"),
-    ("nested3_h111", "thorough", 1500, "3 keys, up to 2 nested interferences, depth<=2", "3 keys, heights 1,1,1, budget 2"),
 ]
 PROPS["C17"] = dict(
-    harnesses=hs("skipfree", VH, unwind=4, miri=True, items=_sk),
+    harnesses=hs("skipfree", VH, unwind=4, miri=True, mem=28, items=_sk),
     level_text="x", level_note="y",
 )
 GROUPS["listfree"] = Group("listfree", "incrate", package="listfree")
@@ -83,3 +101,265 @@ PROPS["C17"]["harnesses"] += hs("listfree", VH, unwind=4, miri=True, items=[
     ("nested3", "quick", 300, "outer prepend with up to 2 nested interferences, depth<=2", "3 items, budget 2, all choices"),
     ("nested4", "thorough", 600, "outer prepend with up to 3 nested interferences, depth<=2", "4 items, budget 3, all choices"),
 ])
+
+# ---------------------------------------------------------------- C11
+GROUPS["hx_sst_cursors"] = Group("hx_sst_cursors", "ext", path=HX + "sst_cursors")
+_DOM = "entries: key 0..3, timestamp 0..3, tombstone flag, all combinations; seek keys 0..4; call sequence: every K-call program over {seek_to_first, seek_to_last, seek, next, prev}"
+_DOMS = "entries: key 0..3, timestamp 0..3, tombstone flag, all combinations; seek keys 0..4; call sequence fixed per harness, compared after every call"
+_PN = {'snn': 'seek,next,next', 'lpp': 'seek_to_last,prev,prev', 'spn': 'seek,prev,next', 'fnp': 'seek_to_first,next,prev', 'snp': 'seek,next,prev', 'sps': 'seek,prev,seek'}
+def _scr(prefix, what, keys, quick=(), cap=600, extra=""):
+    return [(f"{prefix}_{k}", "quick" if k in quick else "thorough", cap, f"{what}; program {_PN[k]}", _DOMS + extra) for k in keys]
+_c11 = [
+    ("merge_2x2_k3", "quick", 400, "MergingCursor over 2 children of 2 entries equals one cursor over the sorted union after every call of a 3-call program", _DOM),
+    ("merge_2x0_k3", "quick", 300, "MergingCursor with an empty second child", _DOM),
+    ("merge_0x2_k3", "thorough", 300, "MergingCursor with an empty first child", _DOM),
+    ("merge_3x1_k3", "thorough", 600, "MergingCursor over children of 3 and 1 entries", _DOM),
+    ("merge_2x2_k4", "thorough", 1200, "MergingCursor 2x2, 4-call programs", _DOM),
+    ("merge_2x2_k5", "thorough", 2400, "MergingCursor 2x2, 5-call programs", _DOM),
+    ("merge_3x2_k3", "thorough", 1800, "MergingCursor over children of 3 and 2 entries", _DOM),
+] + _scr("concat_2x2", "ConcatenatingCursor over 2 key-disjoint children of 2 entries equals their concatenation (tombstones included)", ["snn","lpp","spn","fnp","snp","sps"], quick=("snn","spn")) \
+  + _scr("concat_0x2", "ConcatenatingCursor with an empty first child", ["snn","lpp","spn"], quick=("snn",)) \
+  + _scr("concat_2x0", "ConcatenatingCursor with an empty second child", ["snn","lpp","spn"]) \
+  + _scr("concat3_empty_middle", "ConcatenatingCursor over 3 children, the middle one empty", ["snn","lpp","spn"], quick=("spn",)) \
+  + _scr("prune_3", "PruningCursor at a symbolic read timestamp over 3 entries equals 'newest version <= t per key unless tombstone'", ["snn","lpp","spn","fnp","snp","sps"], quick=("snn","lpp"), cap=900, extra="; read timestamp 0..4") \
+  + _scr("prune_4", "PruningCursor over 4 entries", ["snn","lpp","spn"], cap=1800, extra="; read timestamp 0..4") \
+  + _scr("composed_ie", "Bounds[s,e)(Pruning(Merging(2x2))) equals restrict(prune(union)) - the shape of a range scan", ["snp","fnp","lpp"], quick=("snp",), cap=1800) \
+  + _scr("composed_uu", "Bounds(unbounded)(Pruning(Merging(2x2)))", ["snp","fnp","lpp"], cap=1800) \
+  + [
+    (f"bounds_3_k3_{sk}{ek}", "quick" if (sk+ek) in ("ie", "ui") else "thorough", 900, f"BoundsCursor (start {sk}, end {ek}; u=unbounded i=included e=excluded) over 3 entries equals the restriction to the interval; every 3-call program", _DOM + "; bound keys 0..4 incl. empty and inverted ranges")
+    for sk in "uie" for ek in "uie"
+] + [
+    ("bounds_4_k4_ie", "thorough", 2400, "BoundsCursor [s,e) over 4 entries, 4-call programs", _DOM),
+    ("bounds_4_k4_ei", "thorough", 2400, "BoundsCursor (s,e] over 4 entries, 4-call programs", _DOM),
+]
+PROPS["C11"] = dict(
+    harnesses=hs("hx_sst_cursors", "", unwind=6, items=_c11, stubs=["alloc::fmt::format -> empty String (error texts only)"],
+                 assumes=["children sorted by (key asc, timestamp desc); entries distinct across children (merging); children key-disjoint and ordered (concatenating)"]),
+    level_text="x", level_note="y",
+)
+
+# ---------------------------------------------------------------- C16
+GROUPS["hx_tuple_key2"] = Group("hx_tuple_key2", "ext", path=HX + "tuple_key2")
+GROUPS["hx_tuple_key"] = Group("hx_tuple_key", "ext", path=HX + "tuple_key")
+_FW = "all pairs of values, full width"
+_c16_v2 = [
+    ("u64_order_rt", "quick", 300, "compact format: byte order of encodings == numeric order; decode returns the value and consumes all", _FW),
+    ("i64_order_rt", "quick", 300, "compact format i64: order + round trip", _FW),
+    ("u32_order_rt", "thorough", 200, "compact format u32", _FW), ("i32_order_rt", "thorough", 200, "compact format i32", _FW),
+    ("u16_order_rt", "thorough", 200, "compact format u16", _FW), ("i16_order_rt", "thorough", 200, "compact format i16", _FW),
+    ("u8_order_rt", "thorough", 200, "compact format u8", _FW), ("i8_order_rt", "thorough", 200, "compact format i8", _FW),
+] + [
+    (f"bytes_{a}_{b}", tier, 400, f"compact format byte strings of lengths {a},{b}: order == lexicographic order; round trip", "all contents (incl. 0x00, 0xff, prefixes)")
+    for a, b, tier in [(0,0,"thorough"),(0,1,"quick"),(1,1,"thorough"),(1,2,"quick"),(2,1,"thorough"),(2,2,"quick"),(2,3,"thorough"),(3,3,"thorough"),(1,3,"thorough"),(0,3,"thorough")]
+] + [
+    ("string_2_2", "thorough", 300, "compact format strings (ASCII) of length 2", "all ASCII contents"),
+    ("tuple_u64_bytes1", "quick", 400, "(u64, bytes[1]) tuples compare element by element; decode", _FW),
+    ("tuple_u64_bytes2", "thorough", 600, "(u64, bytes[2]) tuples", _FW),
+    ("tuple_bytes1_2_i64", "quick", 400, "(bytes[1|2], i64) tuples: first element of different lengths", _FW),
+    ("tuple_bytes2_2_i64", "thorough", 600, "(bytes[2], i64) tuples", _FW),
+    ("tuple_bytes0_1_i64", "thorough", 400, "(bytes[0|1], i64) tuples", _FW),
+    ("tuple_i64_u64", "thorough", 600, "(i64, u64) tuples", _FW),
+    ("tuple_unit_i32", "thorough", 300, "(unit, i32) tuples", _FW),
+    ("prefix_contiguity_u64", "quick", 400, "s<s' => enc(s) < enc(s.e) < enc(s') for u64 prefixes and an arbitrary further element", _FW),
+    ("prefix_contiguity_bytes_1_2", "quick", 400, "same for byte-string prefixes of lengths 1,2", "all contents"),
+    ("prefix_contiguity_bytes_2_2", "thorough", 600, "same, lengths 2,2", "all contents"),
+    ("prefix_contiguity_bytes_0_1", "thorough", 400, "same, lengths 0,1", "all contents"),
+    ("decode_total_0", "thorough", 200, "every parser entry on the empty input: Ok/Err, no panic", "length 0"),
+    ("decode_total_1", "thorough", 200, "every parser entry on arbitrary bytes", "all 1-byte inputs"),
+    ("decode_total_2", "quick", 300, "every parser entry on arbitrary bytes; accepted values re-encode to the consumed bytes", "all 2-byte inputs"),
+    ("decode_total_4", "thorough", 600, "same", "all 4-byte inputs"),
+    ("decode_total_9", "quick", 900, "same (one tag + full-width payload)", "all 9-byte inputs"),
+]
+_c16_v1 = [
+    ("u64_fwd", "quick", 300, "field-numbered format u64 ascending: order + round trip", _FW),
+    ("u64_rev", "quick", 300, "field-numbered format u64 descending: reversed order + round trip", _FW),
+    ("i64_fwd", "thorough", 300, "i64 ascending", _FW), ("i64_rev", "quick", 300, "i64 descending", _FW),
+    ("u32_fwd", "thorough", 300, "u32 ascending", _FW), ("u32_rev", "thorough", 300, "u32 descending", _FW),
+    ("i32_fwd", "quick", 300, "i32 ascending", _FW), ("i32_rev", "thorough", 300, "i32 descending", _FW),
+] + [
+    (f"str_fwd_{a}_{b}", tier, cap, f"strings (ASCII) of lengths {a},{b} ascending: order + round trip", "all ASCII contents incl. NUL and prefixes")
+    for a, b, tier, cap in [(0,1,"quick",300),(1,1,"thorough",300),(1,2,"quick",400),(2,2,"thorough",400),(2,3,"thorough",600),(3,3,"thorough",900),(1,8,"thorough",1200),(7,8,"thorough",1800)]
+] + [
+    (f"str_rev_{a}_{b}", tier, 600, f"strings of lengths {a},{b} descending, neither a prefix of the other: reversed order + round trip", "all ASCII contents; prefix pairs excluded (known finding)")
+    for a, b, tier in [(1,1,"quick"),(2,2,"thorough"),(1,2,"thorough"),(2,3,"thorough")]
+] + [
+    ("str_rev_prefix_0_1", "quick", 400, "descending strings where one is a proper prefix of the other (isolates known finding tuple-key-desc-string-prefix)", "lengths 0,1", dict(expect="tuple-key-desc-string-prefix")),
+    ("str_rev_prefix_1_2", "thorough", 600, "same, lengths 1,2", "lengths 1,2", dict(expect="tuple-key-desc-string-prefix")),
+    ("tuple_u64f_str1", "quick", 600, "(u64 asc, string[1]) tuples", _FW),
+    ("tuple_u64r_str1", "thorough", 600, "(u64 desc, string[1]) tuples", _FW),
+    ("tuple_str1_2_i32", "quick", 600, "(string[1|2], i32) tuples: first element of different lengths", _FW),
+    ("tuple_str2_2_i32", "thorough", 600, "(string[2], i32) tuples", _FW),
+    ("prefix_contiguity_u64", "quick", 600, "s<s' => enc(s) < enc(s.e) < enc(s') for u64 prefixes extended by u64 / descending i64 / unit", _FW),
+    ("prefix_contiguity_str_1_2", "quick", 600, "same for string prefixes of lengths 1,2", "all ASCII contents"),
+    ("prefix_contiguity_str_2_2", "thorough", 600, "same, lengths 2,2", "all ASCII contents"),
+    ("decode_total_0", "thorough", 300, "every parser entry on the empty key", "length 0"),
+    ("decode_total_2", "quick", 400, "every parser entry and the element iterator on arbitrary bytes: Ok/Err, no panic; iterator partitions the key", "all 2-byte keys, both directions, field numbers 1..3"),
+    ("decode_total_4", "thorough", 900, "same", "all 4-byte keys"),
+    ("decode_total_8", "thorough", 1800, "same", "all 8-byte keys"),
+]
+PROPS["C16"] = dict(
+    harnesses=hs("hx_tuple_key2", "", unwind=12, items=_c16_v2) + hs("hx_tuple_key", "", unwind=12, items=_c16_v1, stubs=["alloc::fmt::format -> empty String"]),
+    level_text="x", level_note="y",
+)
+
+# ---------------------------------------------------------------- C15
+GROUPS["hx_prototk"] = Group("hx_prototk", "ext", path=HX + "prototk")
+_SERR = ["alloc::fmt::format -> empty String", "handled::SError::{new,with_code,with_message,with_atom_field,with_string_field,with_debug_field} -> empty error (error texts only; is_err() preserved)"]
+_c15 = [
+    ("varint_roundtrip", "quick", 400, "v64: pack_sz == LEB128 length, pack writes exactly those bytes (the standard encoding), unpack inverts through both the short-buffer and the unrolled path", "all u64"),
+    ("varint_fast_eq_slow", "quick", 600, "v64::unpack: unrolled fast path == slow path == reference decoder; truncation is an error", "all 11-byte buffers"),
+    ("varint_total_0", "thorough", 200, "v64::unpack on the empty buffer", "length 0"),
+    ("varint_total_1", "thorough", 200, "v64::unpack on arbitrary bytes agrees with the reference decoder, no panic", "all 1-byte buffers"),
+    ("varint_total_5", "thorough", 300, "same", "all 5-byte buffers"),
+    ("varint_total_9", "quick", 400, "same (longest slow-path buffer)", "all 9-byte buffers"),
+    ("varint_total_10", "quick", 400, "same (shortest fast-path buffer)", "all 10-byte buffers"),
+    ("varint_total_12", "thorough", 600, "same", "all 12-byte buffers"),
+    ("zigzag_bijection", "quick", 400, "zig-zag is the documented bijection (through sint64)", "all u64 payloads"),
+    ("tag_roundtrip", "quick", 600, "FieldNumber::new accepts exactly 1..2^29-1 minus 19000..19999; Tag bytes are varint(field<<3|wire); round trip; exact pack_sz", "all u32 field numbers x 4 wire types"),
+    ("tag_total_6", "quick", 600, "Tag::unpack on arbitrary bytes: value or error; accepted tags decompose as field<<3|wire with valid parts", "all 6-byte buffers"),
+] + [
+    (f"field_{n}", tier, 600, f"field type {n}: exact pack_sz, standard wire bytes, round trip", "all values")
+    for n, tier in [("uint64","quick"),("uint32","thorough"),("int64","thorough"),("int32","quick"),("sint64","thorough"),("sint32","quick"),
+                    ("fixed32","quick"),("fixed64","thorough"),("sfixed32","thorough"),("sfixed64","thorough"),("float_double","quick"),("bool","thorough"),
+                    ("bytes_0","thorough"),("bytes_3","quick")]
+] + [
+    ("field_iter_total_0", "thorough", 300, "FieldIterator on the empty buffer", "length 0"),
+    ("field_iter_total_2", "quick", 600, "FieldIterator on arbitrary bytes: terminates, no panic, each payload inside the consumed bytes", "all 2-byte buffers"),
+    ("field_iter_total_4", "thorough", 1800, "same", "all 4-byte buffers"),
+    ("field_iter_total_6", "thorough", 3000, "same", "all 6-byte buffers"),
+    ("message_roundtrip", "quick", 1200, "derived message {uint64, sint32}: size == sum of standard field encodings, bytes standard, round trip", "all (u64, i32)"),
+    ("message_unknown_field", "thorough", 1200, "an unknown varint field before/between/after the known ones is skipped", "1-byte value classes, 3 positions"),
+    ("message_total_0", "thorough", 600, "derived message from the empty buffer", "length 0"),
+    ("message_total_3", "thorough", 1800, "derived message from arbitrary bytes: value or error, no panic", "all 3-byte buffers"),
+    ("message_total_5", "thorough", 3000, "same", "all 5-byte buffers"),
+]
+PROPS["C15"] = dict(
+    harnesses=hs("hx_prototk", "", unwind=3, items=_c15, stubs=_SERR),
+    level_text="x", level_note="y",
+)
+
+# ---------------------------------------------------------------- C18
+GROUPS["sync42"] = Group("sync42", "incrate", package="sync42")
+_c18 = [
+    ("wait_list::verif_harness::proto_s3_lllUUU", "quick", 900, "wait list, 3 slots: link x3 then unlink x3 in every order: one head = lowest linked index, head handed on, head<=tail<=head+slots, internal invariant never fires", "all unlink orders, all values"),
+    ("wait_list::verif_harness::proto_s2_llUlUU", "quick", 900, "2 slots: link,link,unlink(any),link,unlink(any),unlink(any): slot reuse / full list", "all choices"),
+    ("wait_list::verif_harness::proto_s2_llUlIU", "thorough", 900, "2 slots with an iteration from a symbolic guard", "all choices"),
+    ("wait_list::verif_harness::proto_s3_llIUnl", "thorough", 900, "3 slots: iterate, unlink, notify_head, link", "all choices"),
+    ("wait_list::verif_harness::proto_s2_lUlUlU", "thorough", 900, "2 slots: three link/unlink rounds (index wraps the slot vector)", "all choices"),
+    ("wait_list::verif_harness::proto_s4_lllUlUl", "thorough", 1200, "4 slots, <=3 guards, 7 operations", "all choices"),
+    ("work_coalescing_queue::verif_harness::queue_sequential_1", "quick", 600, "coalescing queue, one caller, core that refuses/limits/accepts batching: own output returned, core sees the input once, flag cleared", "all inputs, limits 0..2"),
+    ("work_coalescing_queue::verif_harness::queue_sequential_3", "thorough", 900, "same, 3 successive callers: inputs reach the core in call order", "all inputs, limits 0..2"),
+]
+PROPS["C18"] = dict(
+    harnesses=[H("sync42/" + n.split("::")[-1], "sync42", n + "::check", tier=ti, cap=c, desc=d, bound=b, unwind=4, miri=False,
+                 stubs=["std::sync::Condvar::notify_one -> no-op (reaches futex; no second thread exists to wake)"],
+                 assumes=["link is not called on a full list (the real link blocks there; single-threaded harness)"]) for n, ti, c, d, b in _c18],
+    level_text="x", level_note="y",
+)
+
+# ---------------------------------------------------------------- C10 / C05 / C07 (in-crate sst, lsmtk)
+GROUPS["sst"] = Group("sst", "incrate", package="sst")
+GROUPS["lsmtk"] = Group("lsmtk", "incrate", package="lsmtk")
+def hs2(group, modpath, items, **common):
+    out = []
+    for it in items:
+        ident, tier, cap, desc, bound = it[:5]
+        extra = dict(common)
+        if len(it) > 5:
+            extra.update(it[5])
+        out.append(H(f"{group}/{ident}", group, f"{modpath}{ident}::check", tier=tier, cap=cap, desc=desc, bound=bound, **extra))
+    return out
+_KT = "all key bytes, all u64 timestamps; key lengths concrete"
+_c10 = hs2("sst", "verif_harness::", unwind=3, stubs=_SERR, items=[
+    ("keyref_order_2_2", "quick", 300, "KeyRef orders by key ascending then timestamp descending (everything else relies on it)", _KT),
+    ("keyref_order_1_2", "thorough", 300, "same, keys of lengths 1 and 2", _KT),
+    ("divide_1_1", "quick", 300, "divide_keys(l, r) for every l < r returns d with l <= d < r; no internal assertion fires", _KT),
+    ("divide_2_2", "quick", 400, "same, key lengths 2,2", _KT),
+    ("divide_1_2", "quick", 400, "same, key lengths 1,2 (left key a prefix of the right)", _KT),
+    ("divide_0_1", "thorough", 300, "same, empty left key", _KT), ("divide_2_1", "thorough", 400, "same, lengths 2,1", _KT),
+    ("divide_3_3", "thorough", 900, "same, lengths 3,3", _KT), ("divide_3_2", "thorough", 600, "same, lengths 3,2", _KT), ("divide_2_3", "thorough", 600, "same, lengths 2,3", _KT),
+    ("successor_2", "quick", 300, "minimal_successor_key is strictly above its argument, keeps it as prefix, and divide_keys accepts the pair (the seal path)", _KT),
+    ("successor_0", "thorough", 300, "same, empty key", _KT),
+    ("size_guards", "quick", 300, "check_table_size/check_key_len/check_value_len thresholds are exact", "all sizes; boundary lengths MAX and MAX+1"),
+]) + hs2("sst", "block::verif_harness::", unwind=3, stubs=_SERR, items=[
+    ("reject_unordered_1_1", "quick", 600, "from an ARBITRARY builder state: the sort-order guard accepts exactly strictly increasing entries; a rejected put/del returns Err and leaves buffer, last key, restart state unchanged", _KT),
+    ("reject_unordered_2_2", "quick", 900, "same, key lengths 2,2", _KT),
+    ("reject_unordered_2_1", "thorough", 900, "same, lengths 2,1", _KT),
+    ("reject_unordered_0_0", "thorough", 600, "same, empty keys", _KT),
+    ("reject_oversize", "quick", 900, "oversize key (put, del) and oversize value are rejected and write nothing", "lengths MAX+1"),
+])
+PROPS["C10"] = dict(harnesses=_c10, level_text="x", level_note="y")
+_GC = "entries over 2 keys, timestamps 0..7, tombstone flags: all sorted sequences; N in 1..3, ttl threshold 0..8"
+_c05 = hs2("sst", "gc::verif_harness::", unwind=3, stubs=_SERR, items=[
+    ("determiners_3calls", "quick", 900, "Versions/Expires/Any/All determiners, three successive retain calls in the collector's calling pattern, against the policy reading (running version count, threshold test, or, and)", "all keys (2), tombstone runs 0..2, all u64 timestamps, N in 1..4"),
+    ("collector_versions_2", "quick", 1800, "GarbageCollector over 2 entries with versions=N yields exactly what an independent reading of the documented policy retains, in order; never drops the deciding value", _GC),
+    ("collector_versions_3", "thorough", 3000, "same, 3 entries", _GC),
+    ("collector_ttl_3", "thorough", 3000, "ttl policy, 3 entries", _GC),
+    ("collector_any_3", "thorough", 3000, "any(versions, ttl), 3 entries", _GC),
+    ("collector_all_3", "thorough", 3000, "all(versions, ttl), 3 entries", _GC),
+]) + [h for h in hs("hx_sst_cursors", "", unwind=6, stubs=["alloc::fmt::format -> empty String"], items=[
+    ("merge3_conserve_111", "quick", 600, "a 3-way merge yields every input entry exactly once, strictly increasing, forward and backward (multiset conservation)", "3 children x 1 entry, key 0..3, ts 0..3, tombstones"),
+    ("merge3_conserve_211", "quick", 900, "same, children of 2,1,1 entries", "4 entries"),
+    ("merge3_conserve_221", "thorough", 1800, "same, children of 2,2,1 entries", "5 entries"),
+])]
+PROPS["C05"] = dict(harnesses=_c05, level_text="x", level_note="y")
+_MT = "2 entries at scan-open time (keys 0..3, one may be a tombstone), read timestamp 2; seek keys and later-write keys 0..3; event script fixed per harness"
+_c07 = hs2("lsmtk", "kvs::verif_harness::", unwind=3, stubs=_SERR, mem=28, items=[
+    ("snapshot_drop_first_next", "quick", 1200, "memtable range scan: the store drops the memtable, then seek_to_first,next: memory-safe (CBMC pointer checks) and shows the contents at open time", _MT),
+    ("snapshot_first_next_write_next_next", "quick", 1800, "scan; a later write (higher timestamp, symbolic key, put or delete) arrives mid-iteration: never shown", _MT),
+    ("snapshot_first_next_drop_next_prev", "thorough", 1800, "scan; memtable released mid-iteration; forward then backward", _MT),
+    ("snapshot_write_drop_seek_next", "thorough", 1800, "later write, release, then seek(k),next", _MT),
+    ("snapshot_last_prev_write_drop_prev", "thorough", 1800, "backward iteration across a later write and the release", _MT),
+    ("snapshot_seek_write_next_drop_next", "thorough", 1800, "seek(k); later write; next; release; next", _MT),
+]) + hs("skipfree", VH, unwind=4, miri=True, mem=28, items=[
+    ("iter_after_drop_h11_seek_next", "quick", 420, "skiplist iterator used after the list is dropped at a symbolic point of seek(q),next: memory-safe and contents intact; the iterator then frees the nodes", "2 keys, heights 1,1"),
+    ("iter_clone_after_drop", "quick", 420, "a cloned iterator survives the drop of the list and of the other clone", "2 keys, heights 1,2"),
+])
+PROPS["C07"] = dict(harnesses=_c07, level_text="x", level_note="y")
+
+# ---------------------------------------------------------------- C19
+GROUPS["hx_scrunch"] = Group("hx_scrunch", "ext", path=HX + "scrunch")
+_c19 = [(f"bit_array_{n}", tier, 600, f"bit-array Builder::push x{n} -> seal -> BitArray::get(i) / load(i, w) for symbolic i and w in 0..16 equal the pushed bits (little-endian bit order, zero padding); out-of-range is None", f"all {n}-bit patterns") for n, tier in [(1,"thorough"),(7,"thorough"),(8,"quick"),(9,"quick"),(16,"quick"),(24,"thorough")]] + [
+    ("push_word_roundtrip", "quick", 600, "push_word of a w-bit word at any bit alignment is read back by load; earlier bits untouched", "alignment 0..7, width 0..32, all words"),
+] + [(f"reference_bv_{n}", tier, cap, f"ReferenceBitVector of {n} bits: construct -> serialise -> parse -> access/rank/rank0/select/select0 for a symbolic query equal counting over the plain bit array", f"all {n}-bit patterns, all query positions incl. past the end") for n, tier, cap in [(0,"thorough",300),(1,"thorough",300),(7,"quick",900),(8,"quick",900),(9,"thorough",1200),(16,"thorough",2400)]] + [
+    ("partition_by_all", "quick", 300, "partition_by returns the first false index for every monotone predicate and never probes the last index", "first 0..7, length 0..8, every split"),
+]
+PROPS["C19"] = dict(harnesses=hs("hx_scrunch", "", unwind=12, items=_c19, stubs=["alloc::fmt::format -> empty String"]), level_text="x", level_note="y")
+
+# ---------------------------------------------------------------- claim texts
+_TRUST = "Trusts Kani 0.68's MIR->goto translation, CBMC 6.11 (memcpy/memcmp/malloc models, --no-malloc-may-fail, 16 object bits) and CaDiCaL; mitigated, not removed, by native replay of every counterexample and by cover points (vacuity witnesses) in every harness. "
+_BMC = "Bounded model checking of the compiled code of /repo (regenerated from the working tree on every run): each harness is one or more SAT queries over ALL values of its symbolic tape, with loop bounds enforced by unwinding assertions, so inside the stated shapes nothing is sampled. "
+def _claim(pid, text, note, ref, outside):
+    PROPS[pid].update(level_text=_BMC + text, level_note=_TRUST + note, design_ref=ref, outside=outside)
+    PROPS[pid].setdefault("trusted", ["harness-side reference models (<=40 lines each, written from the statement, returning plain values)"])
+
+_claim("C14", "For setsum every law is decided over all 32/64/96-byte inputs (2^256..2^768 states), so columns at 0, 1, p-1, p and p..2^32-1 are all covered; loops are fixed-size and fully unrolled, so inside the algebra the claim is complete for the functions named. SHA3 itself is outside the solver (uninterpreted in the multiset laws, anchored natively on concrete items).",
+       "The oracle is a u64 '%' reading of the published definition with the eight primes restated in the harness; item hashing is an uninterpreted function in the multiset laws; the SHA3 anchor is an ordinary native run compared with hashlib.", "DESIGN.md 2/C14",
+       "collision resistance; SHA3-256 on symbolic input; non-ASCII strings passed to from_hexdigest; hexdigest formatting only with 30 of 32 digest bytes fixed")
+_claim("C16", "Both tuple-key formats: integers at full width (all pairs), strings/bytes at concrete lengths 0..3 (8 on one side in the thorough tier) with all contents, 2-element tuples, prefix contiguity, total decoders on all inputs of concrete lengths.",
+       "Shapes (lengths, arity) are concrete per query and enumerated; contents are symbolic. Descending strings where one is a prefix of the other are a recorded known finding and are checked by their own harness.", "DESIGN.md 2/C16",
+       "strings longer than 3 (8) bytes, non-ASCII strings in the field-numbered format, tuples of more than 2(+1) elements, the derive macros, Schema")
+_claim("C11", "Merging, concatenating, pruning (partial), bounds cursors and their composition are instantiated at a fixed-capacity array cursor (same semantics as sst::reference::ReferenceCursor) and compared with a sorted-array definition after EVERY call of a cursor program; merging and bounds under every 3..5-call program, concatenating/pruning under fixed call sequences with symbolic seek keys.",
+       "Entry domain key 0..3 x timestamp 0..3 x tombstone (realises every order type of <=5 entries); children sorted and mutually distinct (merging) / key-disjoint (concatenating) are assumptions; cursors under test are heap-allocated because CBMC produced non-reproducing counterexamples for stack-resident arrays.", "DESIGN.md 2/C11",
+       "LazyCursor (hard-wired to files); error propagation from failing children; pruning cursor under prev and under programs longer than the listed ones (queries do not finish); tables of more than 5 entries")
+_claim("C15", "varint pack/unpack (fast = slow = reference on all 11-byte buffers; all u64), zig-zag, tags (all u32 field numbers), every scalar field type (exact pack_sz, standard wire bytes, round trip, all values), bytes fields, the field iterator and one derived message on arbitrary small buffers.",
+       "Error-text constructors and format! are stubbed (is_err() preserved). The wire-format oracle is an independent 12-line LEB128 encoder/decoder in the harness.", "DESIGN.md 3/C15",
+       "messages with more than 2 fields, containers (Vec/Option/nested), enums with payloads, Result, strings' UTF-8 validation, buffers longer than the stated lengths")
+_claim("C17", "Sequential: all distinct u8 keys, 2 inserts under every height script of a MAX_HEIGHT=2 list (3 inserts for membership/seek), contains for a symbolic probe, one symbolic-position iterator step in each direction, iterator validity after drop; prepend-only list: all values, nested interference at the CAS yield point to depth 2 (reaches the retry loop).",
+       "Kani treats atomics sequentially: schedules are covered only in the nested (stack-like) form for listfree; skipfree nested interference did not finish and is NOT claimed. Heights are scripted through a guarded hook replacing rand.", "DESIGN.md 3/C17",
+       "true thread interleavings, weak-memory effects, skiplists of more than 3 keys or MAX_HEIGHT > 2, skipfree insert under interference")
+_claim("C18", "Wait list built with 2..4 slots: scripted link/unlink/notify/iterate sequences with every choice of which guard unlinks; the queue's single-caller path with cores that refuse/limit/accept batching.",
+       "Condvar::notify_one is a no-op stub (no second thread exists); link on a full list (which blocks by design) is not exercised.", "DESIGN.md 3/C18",
+       "cross-caller batching, lost wake-ups, blocking paths (threads); the LRU cache (std HashMap does not finish under CBMC)")
+_claim("C10", "Dividing keys and minimal successor for all key bytes/timestamps at key lengths <=3; KeyRef ordering; exact size thresholds; BlockBuilder rejection as ONE inductive step from an arbitrary builder state (so it covers every history leading to that state).",
+       "Everything that packs or parses a block/SST is outside (does not finish under CBMC: measured).", "DESIGN.md 3/C10",
+       "block/SST round trips, cursor programs over real blocks, metadata, bloom filter, restart intervals")
+_claim("C05", "The four policy determiners against the policy reading (3 successive calls, all u64 timestamps); the real GarbageCollector loop over a small array cursor against an independent reading of the documented policy; 3-way merge conserves the multiset forward and backward.",
+       "The policy reading (40 lines) is written from GarbageCollectionPolicy's documentation and was cross-checked natively against the collector on 1.4M random cases.", "DESIGN.md 3/C05",
+       "perform_compaction/perform_garbage_collection themselves, the multi-builder and output splitting, balance checks (file-bound); policy strings (nom parser)")
+_claim("C07", "Memtable range-scan cursor (BoundsCursor<PruningCursor<skiplist iterator>>) as a stable, memory-safe snapshot: later writes with higher timestamps (symbolic key, put or delete) and the release of the memtable placed at fixed points of an iteration; skiplist iterators after the list is dropped. Memory safety = CBMC's pointer checks.",
+       "Events are sequentialised (ordinary calls between cursor calls); skiplist heights scripted to 1 (MAX_HEIGHT 12 kept).", "DESIGN.md 3/C07",
+       "SST-backed cursors, trash/retirement, file descriptors, true concurrency")
+_claim("C19", "The bit-array substrate only: Builder/BitArray get/load/push_word, ReferenceBitVector access/rank/select/rank0/select0 after construct->serialise->parse, partition_by, for every bit pattern of the stated lengths.",
+       "This is the substrate of the statement's second sentence, not the compressed index itself.", "DESIGN.md 3/C19",
+       "rrr and sparse bit vectors (600 s timeouts at 8 bits), suffix array, psi, wavelet trees, documents")
